@@ -10,8 +10,99 @@ its tolerance. Then, per backend namespace (`Sqlite`, `Memory`, `Peewee`): a clo
 `getEvents` on the observable `view`, and from it `get_sound`, `get_complete`, `get_sorted`,
 `get_limit_*`, `count_eq`, `count_window_mono`.
 -/
+/-! ## More on the stable sort (on top of `Lemmas/PySort.lean`) -/
+namespace Aw.PySort
+variable {α : Type} (key : α → Int)
+
+theorem insertBy_cons_le (x y : α) (ys : List α) (h : key x ≤ key y) :
+    insertBy key x (y :: ys) = x :: y :: ys := by
+  show (if key x ≤ key y then _ else _) = _; rw [if_pos h]
+theorem insertBy_cons_gt (x y : α) (ys : List α) (h : ¬ key x ≤ key y) :
+    insertBy key x (y :: ys) = y :: insertBy key x ys := by
+  show (if key x ≤ key y then _ else _) = _; rw [if_neg h]
+theorem sortBy_cons (x : α) (xs : List α) : sortBy key (x :: xs) = insertBy key x (sortBy key xs) := rfl
+
+theorem insertBy_of_le_all (x : α) (l : List α) (h : ∀ z ∈ l, key x ≤ key z) :
+    insertBy key x l = x :: l := by
+  cases l with
+  | nil => rfl
+  | cons y ys => exact insertBy_cons_le key x y ys (h y List.mem_cons_self)
+
+/-- filtering (by any predicate) commutes with insertion into a sorted list -/
+theorem insertBy_filter_any (p : α → Bool) (x : α) (l : List α)
+    (hs : List.Pairwise (fun a b => key a ≤ key b) l) :
+    (insertBy key x l).filter p =
+      if p x then insertBy key x (l.filter p) else l.filter p := by
+  induction l with
+  | nil => cases hp : p x <;> simp [insertBy, hp]
+  | cons y ys ih =>
+    have hy := List.pairwise_cons.mp hs
+    have ih := ih hy.2
+    by_cases hxy : key x ≤ key y
+    · have hall : ∀ z ∈ (y :: ys).filter p, key x ≤ key z := by
+        intro z hz
+        rcases List.mem_cons.mp (List.mem_filter.mp hz).1 with rfl | hz'
+        · exact hxy
+        · exact Int.le_trans hxy (hy.1 z hz')
+      rw [insertBy_of_le_all key x _ hall]
+      rw [insertBy_cons_le key x y ys hxy]
+      cases hpx : p x <;> simp [List.filter_cons, hpx]
+    · rw [insertBy_cons_gt key x y ys hxy, List.filter_cons, ih]
+      cases hpx : p x <;> cases hpy : p y <;> simp [hpy, insertBy_cons_gt, hxy]
+
+/-- filtering commutes with the stable sort -/
+theorem sortBy_filter (p : α → Bool) (l : List α) :
+    (sortBy key l).filter p = sortBy key (l.filter p) := by
+  induction l with
+  | nil => rfl
+  | cons x xs ih =>
+    rw [sortBy_cons, insertBy_filter_any key p x _ (sortBy_sorted key xs), ih]
+    cases hpx : p x <;> simp [hpx, sortBy_cons]
+
+/-- stability, relational form: inserting an element that is `R`-before everything -/
+theorem insertBy_lex (R : α → α → Prop) (x : α) (l : List α)
+    (hx : ∀ y ∈ l, R x y)
+    (h : List.Pairwise (fun a b => key a < key b ∨ (key a = key b ∧ R a b)) l) :
+    List.Pairwise (fun a b => key a < key b ∨ (key a = key b ∧ R a b)) (insertBy key x l) := by
+  induction l with
+  | nil => simp [insertBy]
+  | cons y ys ih =>
+    have hy := List.pairwise_cons.mp h
+    by_cases hxy : key x ≤ key y
+    · rw [insertBy_cons_le key x y ys hxy]
+      refine List.pairwise_cons.mpr ⟨?_, h⟩
+      intro z hz
+      have hR := hx z hz
+      rcases List.mem_cons.mp hz with rfl | hz'
+      · rcases Int.lt_or_eq_of_le hxy with h1 | h1
+        · exact Or.inl h1
+        · exact Or.inr ⟨h1, hR⟩
+      · have h2 : key y ≤ key z := by rcases hy.1 z hz' with h2 | h2 <;> omega
+        rcases Int.lt_or_eq_of_le (Int.le_trans hxy h2) with h1 | h1
+        · exact Or.inl h1
+        · exact Or.inr ⟨h1, hR⟩
+    · rw [insertBy_cons_gt key x y ys hxy]
+      refine List.pairwise_cons.mpr ⟨?_, ih (fun z hz => hx z (List.mem_cons_of_mem _ hz)) hy.2⟩
+      intro z hz
+      rcases (mem_insertBy key x z ys).mp hz with rfl | hz
+      · exact Or.inl (by omega)
+      · exact hy.1 z hz
+
+/-- stability, relational form: if the input is ordered by `R`, the output is ordered by `key`
+    and, among equal keys, by `R` -/
+theorem sortBy_lex (R : α → α → Prop) (l : List α) (h : List.Pairwise R l) :
+    List.Pairwise (fun a b => key a < key b ∨ (key a = key b ∧ R a b)) (sortBy key l) := by
+  induction l with
+  | nil => simp [sortBy]
+  | cons x xs ih =>
+    have hx := List.pairwise_cons.mp h
+    rw [sortBy_cons]
+    exact insertBy_lex key R x _ (fun y hy => hx.1 y ((mem_sortBy key xs y).mp hy)) (ih hx.2)
+
+end Aw.PySort
+
 namespace Aw.Store
-open Aw
+open Aw Aw.PySort
 variable {D : Type}
 
 /-! ## `applyLimit` -/
@@ -182,7 +273,7 @@ end Aw.Store
 
 /-! ## sqlite -/
 namespace Aw.Store.Sqlite
-open Aw Aw.Store
+open Aw Aw.Store Aw.PySort
 variable {D : Type}
 
 /-- the `WHERE` clause of `get_events` / `get_eventcount` on a row -/
@@ -199,7 +290,9 @@ theorem toEv_ts (row : ERow D) : (toEv row).ts = row.st := rfl
 theorem winRow_iff (st en : Option Int) (row : ERow D) :
     winRow st en row = true ↔
       inWindow st en (toEv row) = true ∧ (st = none → 0 ≤ (toEv row).ts + (toEv row).dur) := by
-  cases st <;> cases en <;> simp [winRow, inWindow, toEv_fin, toEv_ts]
+  rw [inWindow_iff, toEv_fin, toEv_ts]
+  cases st <;> cases en <;> simp [winRow]
+  exact And.comm
 
 theorem view_some {s : St D} {b : String} {m : Meta} {es : List (Ev D)}
     (h : view s b = some (m, es)) : ∃ r, rowOf s b = some r ∧ es = (rowsOf s r).map toEv := by
